@@ -106,7 +106,27 @@ pub proof fn lemma_mul_limbs(x: int, y: int)
     lemma_mul_lt(x, B128(), y, B128());
 }
 
-// ---- long division of a 4-limb number by a 1-limb divisor
+// ---- long division
+/// partial dividend t = r * k + d with r < y, d < k: t < y * k, so the quotient digit t / y is below k
+pub proof fn lemma_div_digit(r: int, d: int, y: int, k: int)
+    requires 0 <= r < y, 0 <= d < k
+    ensures ({
+        let t = r * k + d;
+        &&& 0 <= t < y * k
+        &&& 0 <= t / y < k
+        &&& 0 <= t % y < y
+        &&& t == (t / y) * y + t % y
+    })
+{
+    let t = r * k + d;
+    assert(0 <= t < y * k) by (nonlinear_arith) requires 0 <= r <= y - 1, 0 <= d < k, t == r * k + d;
+    vstd::arithmetic::div_mod::lemma_fundamental_div_mod(t, y);
+    vstd::arithmetic::div_mod::lemma_mod_bound(t, y);
+    assert(t / y < k) by (nonlinear_arith) requires t < y * k, t == y * (t / y) + t % y, 0 <= t % y, y > 0;
+    assert(t / y >= 0) by (nonlinear_arith) requires t >= 0, t == y * (t / y) + t % y, t % y < y, y > 0;
+    assert(y * (t / y) == (t / y) * y) by (nonlinear_arith);
+}
+
 pub proof fn lemma_div_step(r: int, d: int, y: int)
     requires 0 <= r < y, 0 <= d < B64(), 0 < y <= B64()
     ensures ({
@@ -117,14 +137,8 @@ pub proof fn lemma_div_step(r: int, d: int, y: int)
         &&& t == (t / y) * y + t % y
     })
 {
-    let t = r * B64() + d;
-    assert(t < y * B64()) by (nonlinear_arith) requires 0 <= r <= y - 1, 0 <= d < B64(), t == r * B64() + d;
+    lemma_div_digit(r, d, y, B64());
     assert(y * B64() <= B128()) by (nonlinear_arith) requires 0 < y <= B64();
-    vstd::arithmetic::div_mod::lemma_fundamental_div_mod(t, y);
-    vstd::arithmetic::div_mod::lemma_mod_bound(t, y);
-    assert(t / y < B64()) by (nonlinear_arith) requires t < y * B64(), t == y * (t / y) + t % y, 0 <= t % y, y > 0;
-    assert(t / y >= 0) by (nonlinear_arith) requires t >= 0, t == y * (t / y) + t % y, t % y < y, y > 0;
-    assert(y * (t / y) == (t / y) * y) by (nonlinear_arith);
 }
 
 /// one step of long division: if x == q * y + r and the next partial dividend r * k + d == q1 * y + r1,
@@ -201,4 +215,221 @@ pub proof fn lemma_long_div4(h: int, l: int, y: int)
 pub proof fn lemma_div_by_one(x: int)
     ensures x / 1 == x, x % 1 == 0
 {
+}
+
+/// 256 / 128 bit division in two steps: divide the high word, then the (remainder, low word) pair
+pub proof fn lemma_div_2step(h: int, l: int, y: int)
+    requires 0 <= h < B128(), 0 <= l < B128(), 0 < y
+    ensures ({
+        let t = h % y;
+        &&& 0 <= t < y
+        &&& 0 <= h / y <= h
+        &&& 0 <= u256(t, l) / y < B128()
+        &&& u256(h / y, u256(t, l) / y) == u256(h, l) / y
+        &&& u256(t, l) % y == u256(h, l) % y
+        &&& u256(h, l) == (u256(h, l) / y) * y + u256(h, l) % y
+        &&& 0 <= u256(h, l) % y < y
+    })
+{
+    let t = h % y;
+    let qh = h / y;
+    let m = B128();
+    vstd::arithmetic::div_mod::lemma_fundamental_div_mod(h, y);
+    vstd::arithmetic::div_mod::lemma_mod_bound(h, y);
+    vstd::arithmetic::div_mod::lemma_div_pos_is_pos(h, y);
+    vstd::arithmetic::div_mod::lemma_div_is_ordered_by_denominator(h, 1, y);
+    vstd::arithmetic::div_mod::lemma_div_basics_3(h);
+    assert(y * qh == qh * y) by (nonlinear_arith);
+    lemma_div_digit(t, l, y, m);
+    let x1 = u256(t, l);
+    let ql = x1 / y;
+    let r = x1 % y;
+    lemma_ld_step(h, qh, t, l, ql, r, y, m);
+    assert(u256(h, l) == u256(qh, ql) * y + r);
+    lemma_div_mod_unique(u256(h, l), y, u256(qh, ql), r);
+}
+
+/// what x = q * y + r, 0 <= r < y says in the two equivalent forms used by the contracts
+pub proof fn lemma_div_forms(x: int, y: int)
+    requires y > 0
+    ensures x == (x / y) * y + x % y, 0 <= x % y < y, x >= 0 ==> x / y >= 0,
+{
+    vstd::arithmetic::div_mod::lemma_fundamental_div_mod(x, y);
+    vstd::arithmetic::div_mod::lemma_mod_bound(x, y);
+    assert(y * (x / y) == (x / y) * y) by (nonlinear_arith);
+    if x >= 0 { vstd::arithmetic::div_mod::lemma_div_pos_is_pos(x, y); }
+}
+
+// ---- floor division of a signed numerator from the division of the magnitudes
+pub proof fn lemma_abs_mul(a: int, b: int)
+    ensures
+        abs_int(a) * abs_int(b) == abs_int(a * b),
+        (a < 0) == (b < 0) ==> a * b >= 0,
+        (a < 0) != (b < 0) ==> a * b <= 0,
+        (a * b == 0) <==> (a == 0 || b == 0),
+{
+    assert((-a) * b == -(a * b)) by (nonlinear_arith);
+    assert(a * (-b) == -(a * b)) by (nonlinear_arith);
+    assert((-a) * (-b) == a * b) by (nonlinear_arith);
+    assert(a > 0 && b > 0 ==> a * b > 0) by (nonlinear_arith);
+    assert(a < 0 && b < 0 ==> a * b > 0) by (nonlinear_arith);
+    assert(a > 0 && b < 0 ==> a * b < 0) by (nonlinear_arith);
+    assert(a < 0 && b > 0 ==> a * b < 0) by (nonlinear_arith);
+    assert(a == 0 || b == 0 ==> a * b == 0) by (nonlinear_arith);
+}
+
+/// With Q, R the quotient and remainder of |n| by |y|: the floor quotient / remainder of n by y.
+pub proof fn lemma_floor_from_abs(n: int, y: int)
+    requires y != 0
+    ensures ({
+        let q = abs_int(n) / abs_int(y);
+        let r = abs_int(n) % abs_int(y);
+        let fq = floor_quot(n, y);
+        let fr = floor_rem(n, y);
+        &&& q >= 0 && 0 <= r < abs_int(y)
+        &&& n == 0 ==> q == 0 && r == 0
+        &&& (n >= 0 && y > 0) ==> fq == q && fr == r
+        &&& (n <= 0 && y < 0) ==> fq == q && fr == -r
+        &&& (n < 0 && y > 0) ==> fq == (if r == 0 { -q } else { -q - 1 }) && fr == (if r == 0 { 0 } else { y - r })
+        &&& (n > 0 && y < 0) ==> fq == (if r == 0 { -q } else { -q - 1 }) && fr == (if r == 0 { 0 } else { r + y })
+        &&& abs_int(fq) >= q
+    })
+{
+    let a = abs_int(n);
+    let d = abs_int(y);
+    let q = a / d;
+    let r = a % d;
+    lemma_div_forms(a, d);
+    // floor_quot / floor_rem are stated on (m, d) with m = n for y > 0 and m = -n for y < 0
+    let m = if y > 0 { n } else { -n };
+    if m >= 0 {
+        assert(m == a);
+    } else {
+        assert(m == -a);
+        assert((-q) * d == -(q * d)) by (nonlinear_arith);
+        assert((-q - 1) * d == -(q * d) - d) by (nonlinear_arith);
+        if r == 0 {
+            lemma_div_mod_unique(m, d, -q, 0);
+        } else {
+            lemma_div_mod_unique(m, d, -q - 1, d - r);
+        }
+    }
+    if a == 0 {
+        vstd::arithmetic::div_mod::lemma_div_basics_1(d);
+        vstd::arithmetic::div_mod::lemma_small_mod(0, d as nat);
+    }
+}
+
+// ---- rounding a quotient whose magnitude is beyond the i128 range
+pub proof fn lemma_round_div_near(num: int, den: int, mode: RoundingMode)
+    requires den > 0
+    ensures num / den <= round_div(num, den, mode) <= num / den + 1,
+        num % den == 0 ==> round_div(num, den, mode) == num / den,
+{
+}
+
+/// if already the truncated quotient |num| / den exceeds i128::MAX, so does every rounding of num / den
+pub proof fn lemma_round_div_big(num: int, den: int, mode: RoundingMode)
+    requires den > 0, abs_int(num) / den > i128::MAX
+    ensures abs_int(round_div(num, den, mode)) > i128::MAX
+{
+    lemma_floor_from_abs(num, den);
+    lemma_round_div_near(num, den, mode);
+}
+
+// ---- position of the most significant bit (bit-vector facts)
+/// r is the index of the most significant set bit of i
+pub open spec fn is_msb(i: u128, r: int) -> bool {
+    0 <= r < 128 && (i >> (r as u128)) == 1
+}
+
+/// a binary search step with a k-bit upper half: the upper half is non-zero iff the mask test says so
+pub broadcast proof fn lemma_msb_step64(w: u128)
+    ensures
+        (#[trigger] (w & 0xffffffffffffffff0000000000000000u128) != 0) ==> ((w >> 64) != 0 && (w >> 64) < 0x1_0000_0000_0000_0000u128),
+        (w & 0xffffffffffffffff0000000000000000u128) == 0 ==> w < 0x1_0000_0000_0000_0000u128,
+{
+    assert(((w & 0xffffffffffffffff0000000000000000u128) != 0) ==> ((w >> 64) != 0 && (w >> 64) < 0x1_0000_0000_0000_0000u128)) by (bit_vector);
+    assert((w & 0xffffffffffffffff0000000000000000u128) == 0 ==> w < 0x1_0000_0000_0000_0000u128) by (bit_vector);
+}
+
+pub broadcast proof fn lemma_msb_step32(w: u128)
+    requires w < 0x1_0000_0000_0000_0000u128
+    ensures
+        (#[trigger] (w & 0x0000000000000000ffffffff00000000u128) != 0) ==> ((w >> 32) != 0 && (w >> 32) < 0x1_0000_0000u128),
+        (w & 0x0000000000000000ffffffff00000000u128) == 0 ==> w < 0x1_0000_0000u128,
+{
+    assert(w < 0x1_0000_0000_0000_0000u128 ==> (((w & 0x0000000000000000ffffffff00000000u128) != 0) ==> ((w >> 32) != 0 && (w >> 32) < 0x1_0000_0000u128))) by (bit_vector);
+    assert(w < 0x1_0000_0000_0000_0000u128 ==> ((w & 0x0000000000000000ffffffff00000000u128) == 0 ==> w < 0x1_0000_0000u128)) by (bit_vector);
+}
+
+pub broadcast proof fn lemma_msb_step16(w: u128)
+    requires w < 0x1_0000_0000u128
+    ensures
+        (#[trigger] (w & 0x000000000000000000000000ffff0000u128) != 0) ==> ((w >> 16) != 0 && (w >> 16) < 0x1_0000u128),
+        (w & 0x000000000000000000000000ffff0000u128) == 0 ==> w < 0x1_0000u128,
+{
+    assert(w < 0x1_0000_0000u128 ==> (((w & 0x000000000000000000000000ffff0000u128) != 0) ==> ((w >> 16) != 0 && (w >> 16) < 0x1_0000u128))) by (bit_vector);
+    assert(w < 0x1_0000_0000u128 ==> ((w & 0x000000000000000000000000ffff0000u128) == 0 ==> w < 0x1_0000u128)) by (bit_vector);
+}
+
+pub broadcast proof fn lemma_msb_step8(w: u128)
+    requires w < 0x1_0000u128
+    ensures
+        (#[trigger] (w & 0x0000000000000000000000000000ff00u128) != 0) ==> ((w >> 8) != 0 && (w >> 8) < 0x100u128),
+        (w & 0x0000000000000000000000000000ff00u128) == 0 ==> w < 0x100u128,
+{
+    assert(w < 0x1_0000u128 ==> (((w & 0x0000000000000000000000000000ff00u128) != 0) ==> ((w >> 8) != 0 && (w >> 8) < 0x100u128))) by (bit_vector);
+    assert(w < 0x1_0000u128 ==> ((w & 0x0000000000000000000000000000ff00u128) == 0 ==> w < 0x100u128)) by (bit_vector);
+}
+
+/// last step (4-bit halves) together with the position of the top bit of a non-zero 4-bit number
+pub open spec fn nibble_msb(v: u128) -> bool {
+    &&& 0 < v < 16
+    &&& v >= 8 ==> (v >> 3) == 1
+    &&& 4 <= v < 8 ==> (v >> 2) == 1
+    &&& 2 <= v < 4 ==> (v >> 1) == 1
+    &&& v == 1 ==> (v >> 0) == 1
+}
+
+pub broadcast proof fn lemma_msb_step4(w: u128)
+    requires 0 < w < 0x100u128
+    ensures
+        (#[trigger] (w & 0x000000000000000000000000000000f0u128) != 0) ==> nibble_msb(w >> 4),
+        (w & 0x000000000000000000000000000000f0u128) == 0 ==> nibble_msb(w),
+{
+    let v = w >> 4;
+    assert(0 < w < 0x100u128 ==> (((w & 0x000000000000000000000000000000f0u128) != 0) ==> (0 < (w >> 4) < 16))) by (bit_vector);
+    assert(0 < w < 0x100u128 ==> ((w & 0x000000000000000000000000000000f0u128) == 0 ==> w < 16)) by (bit_vector);
+    lemma_nibble(w);
+    lemma_nibble(v);
+}
+
+pub proof fn lemma_nibble(v: u128)
+    ensures 0 < v < 16 ==> nibble_msb(v)
+{
+    assert(8 <= v < 16 ==> (v >> 3) == 1) by (bit_vector);
+    assert(4 <= v < 8 ==> (v >> 2) == 1) by (bit_vector);
+    assert(2 <= v < 4 ==> (v >> 1) == 1) by (bit_vector);
+    assert(v == 1 ==> (v >> 0) == 1) by (bit_vector);
+}
+
+/// shifting right twice is shifting by the sum
+pub broadcast proof fn lemma_shr_shr(x: u128, a: u128, b: u128)
+    requires a + b < 128
+    ensures #[trigger] ((x >> a) >> b) == x >> ((a + b) as u128)
+{
+    assert(a < 128 && b < 128 && add(a, b) < 128 ==> ((x >> a) >> b) == x >> add(a, b)) by (bit_vector);
+}
+
+/// ... and a shift by c is a shift by a <= c followed by a shift by c - a
+pub broadcast proof fn lemma_shr_split(x: u128, a: u128, c: u128)
+    requires a <= c < 128
+    ensures (#[trigger] (x >> c)) == (#[trigger] (x >> a)) >> ((c - a) as u128)
+{
+    assert(a <= c && c < 128 ==> (x >> c) == (x >> a) >> sub(c, a)) by (bit_vector);
+}
+
+pub broadcast group group_msb {
+    lemma_msb_step64, lemma_msb_step32, lemma_msb_step16, lemma_msb_step8, lemma_msb_step4, lemma_shr_shr, lemma_shr_split,
 }
